@@ -459,6 +459,36 @@ def check_pruning(rep, tier, seed):
                 hard.append((f, int(d)))
     for f, d in (hard if tier == "thorough" else core.rng(seed, "C09hard").sample(hard, min(len(hard), 16))):
         cases.append(["new " + f, "obs", "ttnew", "search %d -1 1" % d] + ["refroot %d" % k for k in range(1, d + 1)])
+    # the family behind that corpus: sparse positions with pawns on their home ranks, some with a man on the square right
+    # in front (a double step that must NOT be possible), some free; depth 3 (killer and table moves carry over between
+    # sibling nodes only from remaining depth 2 upwards)
+    for i in range(12 if tier == "quick" else 500):
+        squares = {}
+        for side, home, front in (("P", 1, 2), ("p", 6, 5)):
+            for c in r.sample(range(8), r.randint(2, 4)):
+                squares[(home, c)] = side
+                if r.random() < 0.45:
+                    squares.setdefault((front, c), r.choice("NnBbRrPp"))
+        for _ in range(r.randint(0, 2)):
+            squares.setdefault((r.randrange(2, 6), r.randrange(8)), r.choice("NnBbRr"))
+        free = [(a, b) for a in range(8) for b in range(8) if (a, b) not in squares]
+        wk = r.choice(free); free.remove(wk)
+        free = [x for x in free if max(abs(x[0] - wk[0]), abs(x[1] - wk[1])) > 1]
+        bk = r.choice(free)
+        squares[wk] = "K"; squares[bk] = "k"
+        if sum(1 for v in squares.values() if v == "P") > 8 or sum(1 for v in squares.values() if v == "p") > 8:
+            continue
+        rows = []
+        for rr in range(7, -1, -1):
+            row, e = "", 0
+            for cc in range(8):
+                if (rr, cc) in squares:
+                    row += (str(e) if e else "") + squares[(rr, cc)]; e = 0
+                else:
+                    e += 1
+            rows.append(row + (str(e) if e else ""))
+        f = "/".join(rows) + r.choice([" w", " b"]) + " - - 0 1"
+        cases.append(["new " + f, "obs", "ttnew", "search 3 -1 1", "refroot 1", "refroot 2", "refroot 3"])
     # sparse pawn endings built around a double push that lands beside an enemy pawn (en passant inside the tree)
     for i in range(40 if tier == "quick" else 1500):
         fl = r.randrange(8)
